@@ -52,7 +52,9 @@ func NewGroupNoneMergedGroupResultSet(g []GroupResultSet) GroupResultSet {
 
 	if len(results) > 0 {
 		grs.gc.keys = km.Get()
-		grs.gc.heap.init(results)
+		if err := grs.gc.heap.init(results); err != nil {
+			grs.gc.err = err
+		}
 	}
 
 	return grs
@@ -184,7 +186,9 @@ func (r *groupByMergedGroupResultSet) Next() GroupCursor {
 	}
 
 	r.gc.first = true
-	r.gc.heap.init(r.resultSets)
+	if err := r.gc.heap.init(r.resultSets); err != nil {
+		r.err = err
+	}
 
 	r.km.Clear()
 	for i := range r.groupCursors {
